@@ -482,12 +482,15 @@ func c12Add(c *Ctx) {
 	c.Check(n >= 3, "R12d", "(*lib/binpatch.PatchSet).Add narrowings found", p.Pos(add.Pos()), "", fmt.Sprintf("%d int64->uint32 narrowings found, expected 3", n))
 }
 
+// c12RuleInPlace: the rule id c12InPlace reports under (C08 shares the rule as R08h).
+var c12RuleInPlace = "R12e"
+
 func c12InPlace(c *Ctx) {
 	p := c.P
 	ap := p.Func("lib/binpatch.(*PatchSet).Apply")
 	rw := p.Func("lib/binpatch.(*PatchSet).applyRewrite")
 	if ap == nil || rw == nil {
-		c.Undecided("R12e", "(*PatchSet).Apply/applyRewrite", "-", "function not found")
+		c.Undecided(c12RuleInPlace, "(*PatchSet).Apply/applyRewrite", "-", "function not found")
 		return
 	}
 	c.Analysed(p.FName(ap))
@@ -556,7 +559,7 @@ func c12InPlace(c *Ctx) {
 		sinks = append(sinks, ci)
 	}
 	if len(bodies) == 0 || len(sinks) == 0 {
-		c.Fail("R12e", "(*lib/binpatch.PatchSet).Apply eligibility loop", p.Pos(ap.Pos()), "the size-preservation test (OldSize == NewSize) or the in-place writes were not found")
+		c.Fail(c12RuleInPlace, "(*lib/binpatch.PatchSet).Apply eligibility loop", p.Pos(ap.Pos()), "the size-preservation test (OldSize == NewSize) or the in-place writes were not found")
 	} else {
 		check := func(label string, gs ...Guard) {
 			del := map[edge]bool{}
@@ -575,7 +578,7 @@ func c12InPlace(c *Ctx) {
 					path = p.witness(ap, pred, s.Block().Index)
 				}
 			}
-			c.Check(!bad, "R12e", "(*lib/binpatch.PatchSet).Apply in-place requires "+label, p.Pos(sinks[0].Pos()), "every loop path to the in-place writes passes "+label, "the in-place writes are reachable for a patch that is neither size-preserving nor ("+label+")", path...)
+			c.Check(!bad, c12RuleInPlace, "(*lib/binpatch.PatchSet).Apply in-place requires "+label, p.Pos(sinks[0].Pos()), "every loop path to the in-place writes passes "+label, "the in-place writes are reachable for a patch that is neither size-preserving nor ("+label+")", path...)
 		}
 		check("size-preserving or last patch", samesize, isLast)
 		check("size-preserving or ending at EOF", samesize, atEOF)
@@ -587,7 +590,7 @@ func c12InPlace(c *Ctx) {
 		lst := p.callGuard("Lstat err==nil", []string{"os.Lstat", "os.Stat"}, 1, IsNil, nil)
 		for i, s := range sinks {
 			missing, path := p.unguardedFromEntry(ap, s, can, lst)
-			c.Check(len(missing) == 0, "R12e", fmt.Sprintf("(*lib/binpatch.PatchSet).Apply in-place write#%d under canOverwrite", i+1), p.Pos(s.Pos()), "in-place only when canOverwrite proved the target is the same, singly linked regular file", fmt.Sprintf("the input file is modified in place on a path without %v (a hard-linked or replaced output path would be corrupted / left unpatched)", missing), path...)
+			c.Check(len(missing) == 0, c12RuleInPlace, fmt.Sprintf("(*lib/binpatch.PatchSet).Apply in-place write#%d under canOverwrite", i+1), p.Pos(s.Pos()), "in-place only when canOverwrite proved the target is the same, singly linked regular file", fmt.Sprintf("the input file is modified in place on a path without %v (a hard-linked or replaced output path would be corrupted / left unpatched)", missing), path...)
 		}
 	}
 	// Truncate size is either the original size or Offset+NewSize of the last patch
@@ -602,7 +605,7 @@ func c12InPlace(c *Ctx) {
 			}
 			ok = false
 		}
-		c.Check(ok, "R12e", "(*lib/binpatch.PatchSet).Apply truncate size", p.Pos(ci.Pos()), "final size = old size, or Offset+NewSize of the last patch", "the file is truncated to a size that is neither the old size nor the end of the last patch")
+		c.Check(ok, c12RuleInPlace, "(*lib/binpatch.PatchSet).Apply truncate size", p.Pos(ci.Pos()), "final size = old size, or Offset+NewSize of the last patch", "the file is truncated to a size that is neither the old size nor the end of the last patch")
 	}
 	// rewrite path: out-of-order patches rejected before copying; goes through atomicfile
 	ordered := Guard{Name: "delta>=0", Match: func(f Fact) bool {
@@ -620,10 +623,10 @@ func c12InPlace(c *Ctx) {
 	for _, ci := range p.callsIn(rw, "io.CopyN") {
 		n++
 		missing, path := p.unguardedFromEntry(rw, ci, ordered)
-		c.Check(len(missing) == 0, "R12e", fmt.Sprintf("(*lib/binpatch.PatchSet).applyRewrite ordered-before-copy#%d", n), p.Pos(ci.Pos()), "patches out of order are rejected before copying", "the rewrite copies data for a patch whose offset precedes the previous one (negative delta)", path...)
+		c.Check(len(missing) == 0, c12RuleInPlace, fmt.Sprintf("(*lib/binpatch.PatchSet).applyRewrite ordered-before-copy#%d", n), p.Pos(ci.Pos()), "patches out of order are rejected before copying", "the rewrite copies data for a patch whose offset precedes the previous one (negative delta)", path...)
 	}
-	c.Check(n >= 1, "R12e", "(*lib/binpatch.PatchSet).applyRewrite copies between patches", p.Pos(rw.Pos()), "", "no CopyN between patches found")
-	c.Check(len(p.callsIn(rw, "lib/atomicfile.New")) == 1, "R12e", "(*lib/binpatch.PatchSet).applyRewrite uses atomicfile", p.Pos(rw.Pos()), "", "the rewrite path does not go through lib/atomicfile")
+	c.Check(n >= 1, c12RuleInPlace, "(*lib/binpatch.PatchSet).applyRewrite copies between patches", p.Pos(rw.Pos()), "", "no CopyN between patches found")
+	c.Check(len(p.callsIn(rw, "lib/atomicfile.New")) == 1, c12RuleInPlace, "(*lib/binpatch.PatchSet).applyRewrite uses atomicfile", p.Pos(rw.Pos()), "", "the rewrite path does not go through lib/atomicfile")
 	// the old bytes are skipped by exactly OldSize
 	okSkip := false
 	for _, ci := range p.callsIn(rw, "(*os.File).Seek") {
@@ -631,7 +634,7 @@ func c12InPlace(c *Ctx) {
 			okSkip = true
 		}
 	}
-	c.Check(okSkip, "R12e", "(*lib/binpatch.PatchSet).applyRewrite skips OldSize", p.Pos(rw.Pos()), "", "the rewrite path does not skip exactly OldSize bytes of the input for each patch")
+	c.Check(okSkip, c12RuleInPlace, "(*lib/binpatch.PatchSet).applyRewrite skips OldSize", p.Pos(rw.Pos()), "", "the rewrite path does not skip exactly OldSize bytes of the input for each patch")
 }
 
 // ------------------------------------------------------------------------------ R12h / R12i
